@@ -276,6 +276,21 @@ fn run_op(st: &mut St, op: &Value) -> Value {
         "inline_refs_to" => json!(st.g.get_inline_references_to(&key(op))),
         "block_refs_in" => json!(st.g.get_block_references_in(&key(op))),
         "title" => json!(st.g.get_key_title(&key(op))),
+        "metadata" => {
+            // front-matter as the exported text carries it
+            let k = key(op);
+            if (&st.g).get_node_id(&k).is_none() {
+                json!(null)
+            } else {
+                let md = st.g.to_markdown(&k);
+                if md.starts_with("---\n") {
+                    let rest = &md[4..];
+                    json!(rest.find("---\n").map(|i| rest[..i].to_string()))
+                } else {
+                    json!(null)
+                }
+            }
+        }
         "node_id_at" => json!((&st.g).get_node_id_at(&key(op), op["line"].as_u64().unwrap() as usize)),
         "line_range" => json!(st.g.node_line_range(op["id"].as_u64().unwrap()).map(|r| vec![r.start, r.end])),
         "key_of" => json!((&st.g).key_of(op["id"].as_u64().unwrap()).to_string()),
